@@ -22,6 +22,14 @@ pub struct Plan {
     pub keys: Vec<(u64, Loc, bool)>,
     pub size: usize,
     pub drop_without_close: bool,
+    /// close() is called while device writes are held at the io gate (released 40 ms later by another task): writes are
+    /// pending / in flight at close time
+    #[serde(default)]
+    pub held_close: bool,
+    /// keys inserted (and evicted again by the resident set) right before the resident set, so that their disk writes
+    /// are still pending in the flusher's buffer when close() starts
+    #[serde(default)]
+    pub burst: usize,
 }
 
 fn copies(cfg: &HCfg, dir: &std::path::Path) -> BTreeMap<Stamp, usize> {
@@ -47,13 +55,21 @@ async fn run_plan(plan: &Plan) -> Result<(Vec<(String, String)>, usize), String>
     }
     ex.step(&HOp::EvictMem).await;
     ex.step(&HOp::Wait).await;
+    if plan.held_close {
+        ex.step(&HOp::HoldWrites).await;
+        for b in 0..plan.burst as u64 {
+            ex.step(&HOp::Insert { k: 100_000 + b, size: plan.size, loc: Loc::Default }).await;
+        }
+    }
     for (k, loc, _) in &plan.keys {
         let o = ex.step(&HOp::Insert { k: *k, size: plan.size, loc: *loc }).await;
         if let Some(Seen::Hit(s)) = o.seen {
             latest.insert(*k, s);
         }
     }
-    ex.step(&HOp::Wait).await;
+    if !plan.held_close {
+        ex.step(&HOp::Wait).await;
+    }
     let resident: Vec<u64> = plan.keys.iter().map(|x| x.0).filter(|k| ex.cache().memory().contains(k)).collect();
     let before = copies(cfg, &ex.dir.0);
     let cache = ex.cache.take().unwrap();
@@ -64,11 +80,39 @@ async fn run_plan(plan: &Plan) -> Result<(Vec<(String, String)>, usize), String>
             ex.settle().await;
         }
     } else {
-        if let Err(e) = cache.close().await {
+        if plan.held_close {
+            let io = ex.ctl.io.clone();
+            let held_at_call = io.held_writes().len();
+            let releaser = tokio::spawn({
+                let io = io.clone();
+                async move {
+                    tokio::time::sleep(std::time::Duration::from_millis(40)).await;
+                    io.release_writes();
+                }
+            });
+            let r = cache.close().await;
+            // close() must not return while device writes it is responsible for are still in flight
+            let still_held = io.held_writes().len();
+            let inflight = io.inflight.load(std::sync::atomic::Ordering::SeqCst);
+            if still_held > 0 || inflight > 0 {
+                problems.push((
+                    "close-returned-with-device-writes-in-flight".to_string(),
+                    format!("close() returned while {still_held} device writes were still held at the io gate and {inflight} ios were in flight ({held_at_call} were held when close() was called)"),
+                ));
+            }
+            if let Err(e) = r {
+                problems.push(("close-failed".to_string(), format!("{e}")));
+            }
+            let _ = releaser.await;
+            io.release_writes();
+            ex.writes_held = false;
+            ex.settle().await;
+        } else if let Err(e) = cache.close().await {
             problems.push(("close-failed".to_string(), format!("{e}")));
         }
         let after_close = copies(cfg, &ex.dir.0);
-        if !cfg.flush_on_close && after_close != before {
+        // (with writes pending at close time, queued entries legitimately reach the device while close() drains the flushers)
+        if !cfg.flush_on_close && after_close != before && !plan.held_close {
             problems.push((
                 "close-wrote-entries-with-flush-on-close-off".to_string(),
                 format!("entry copies on disk before close {before:?}, after {after_close:?}"),
@@ -171,7 +215,23 @@ pub fn run(seed: u64, tier: &str, shard: usize, nshards: usize) -> ShardResult {
         let keys: Vec<(u64, Loc, bool)> = (0..n as u64)
             .map(|k| (k, *rng.pick(&[Loc::Default, Loc::Default, Loc::Default, Loc::InMem]), rng.chance(1, 3)))
             .collect();
-        let plan = Plan { cfg, keys, size, drop_without_close: rng.chance(1, 6) };
+        let drop_without_close = rng.chance(1, 6);
+        let held_close = !drop_without_close && rng.chance(1, 3);
+        let mut cfg = cfg;
+        let mut burst = 0;
+        if held_close {
+            // memory holds just the resident set; the burst is evicted by it and stays pending behind the held write
+            let len = size.max(value::MIN_LEN);
+            cfg.mem_capacity = n * len + len / 2;
+            cfg.mem_shards = 1;
+            let pp = (size + 64).div_ceil(hyb::PAGE).max(1);
+            let bpages = cfg.buffer_pool_size / cfg.flushers / hyb::PAGE;
+            if cfg.policy == Policy::WriteOnEviction && n * pp <= bpages {
+                // pending alone fits the buffer, pending + resident does not
+                burst = (bpages * 7 / 10) / pp;
+            }
+        }
+        let plan = Plan { cfg, keys, size, drop_without_close, held_close, burst };
         let r = rt.block_on(async { tokio::time::timeout(std::time::Duration::from_secs(300), run_plan(&plan)).await });
         res.evaluations += 1;
         match r {
@@ -189,6 +249,12 @@ pub fn run(seed: u64, tier: &str, shard: usize, nshards: usize) -> ShardResult {
                 res.count(&format!("plans_{:?}", plan.cfg.policy), 1);
                 if plan.drop_without_close {
                     res.count("plans_drop_without_close", 1);
+                }
+                if plan.held_close {
+                    res.count("plans_close_with_device_writes_held", 1);
+                    if plan.burst > 0 {
+                        res.count("plans_close_with_pending_burst", 1);
+                    }
                 }
                 if resident > 0 {
                     res.nontrivial_hashes.insert(fnv(format!("{plan:?}").as_bytes()));
